@@ -171,12 +171,14 @@ def rule_model_queries(prog, rep, sizes):
                 c.append(grid[state % len(grid)] * size + (0.0 if n_ % 3 else ((state >> 8) % 7 - 3) * 0.13))
             pts.append(c)
         pts += [[1000.0 * size, -1000.0 * size, 0.0], [1000.0 * size + 0.4 * size, -1000.0 * size, 0.3 * size]]
-        atoms = [Obj({"__class__": "Atom", "name": f"A{i}", "x": p_[0], "y": p_[1], "z": p_[2], "cell": None}) for i, p_ in enumerate(pts)]
+        # the atoms belong to residues of every kind the pipeline keeps (amino acid, water, nucleotide, ligand, unknown hetero group)
+        kinds = [Obj({"__class__": c_, "name": n_}) for c_, n_ in (("ALA", "ALA"), ("WAT", "HOH"), ("ADE", "A"), ("LIG", "LIG"), ("Residue", "SO4"))]
+        atoms = [Obj({"__class__": "Atom", "name": f"A{i}", "x": p_[0], "y": p_[1], "z": p_[2], "cell": None, "residue": kinds[i % len(kinds)]})
+                 for i, p_ in enumerate(pts)]
         run = ObjRunner(prog, "cells.py")
         try:
             cm = run.new("Cells", size)
-            for a in atoms:
-                run.call(cm, "add_cell", a)
+            run.call(cm, "assign_cells", Obj({"__class__": "Biomolecule", "atoms": list(atoms)}))
 
             def missing():
                 out, selfhits = [], 0
@@ -197,6 +199,14 @@ def rule_model_queries(prog, rep, sizes):
                 a["x"], a["y"], a["z"] = -a["y"] + 0.37 * k % size, a["z"] - 0.5 * size, a["x"] * -0.5
                 run.call(cm, "add_cell", a)
             m1, s1 = missing()
+            # moves that stay inside the cell, twice in a row for the same atom, including atoms that are alone in their cell
+            for a in atoms[-2:] + atoms[30:40]:
+                for _ in range(2):
+                    run.call(cm, "remove_cell", a)
+                    a["x"], a["y"], a["z"] = a["x"] + 0.001 * size, a["y"], a["z"]
+                    run.call(cm, "add_cell", a)
+            m2, s2 = missing()
+            m1, s1 = m1 + m2, s1 + s2
         except Flow as fl:
             r.bad(f"model|size={size}|runs", f"the cell map stops with {fl.value} on the model atom set", where)
             continue
